@@ -1,0 +1,41 @@
+//go:build verif
+
+package recordcleaner
+
+// Machine-checked contracts for /verif (govc). Comment-only: compiled only with -tags verif, adds no code.
+
+// C30: the cleaner resolves each path name against the configuration it was given (unaltered), deletes
+// nothing for a path whose configuration has recordDeleteAfter == 0, asks the record store for the segments
+// of exactly that path and configuration that start no later than now - recordDeleteAfter, and removes
+// exactly the files the store returned, each of them.
+
+//@ func (c *Cleaner) Initialize
+//@   property C30
+//@   safety -all
+//@   ensures [configuration-unaltered] c.PathConfs == old(c.PathConfs) && forall(n, string, has(c.PathConfs, n) == old(has(c.PathConfs, n)) && c.PathConfs[n] == old(c.PathConfs[n]))
+
+//@ func (c *Cleaner) doRun
+//@   property C30
+//@   safety -all
+//@   assert-call FindAllPathsWithSegments: pathConfs == c.PathConfs
+//@   assert-call processPath: now.ns == resultof(timeNow).ns && exists(k, 0, len(resultof(FindAllPathsWithSegments)), pathName == resultof(FindAllPathsWithSegments)[k])
+//@   assert-call timeNow: true
+//@   loop 1 invariant 0 <= _i && _i <= len(pathNames) && called(processPath) == _i && c.PathConfs == old(c.PathConfs)
+//@   ensures [every-path-processed] called(processPath) == len(resultof(FindAllPathsWithSegments))
+
+//@ func (c *Cleaner) processPath
+//@   property C30
+//@   safety -all
+//@   assert-call FindPathConf: pathConfs == c.PathConfs && name == pathName
+//@   assert-call deleteExpiredSegments: now == caller_now && pathName == caller_pathName && resultof(FindPathConf, 2) == nil && pathConf == resultof(FindPathConf, 0) && pathConf.RecordDeleteAfter != 0
+//@   assert-call os.Remove: false
+//@   ensures [expired-segments-deleted-next-pass] called(FindPathConf) == 1 && (resultof(FindPathConf, 2) == nil && resultof(FindPathConf, 0).RecordDeleteAfter != 0 ==> called(deleteExpiredSegments) == 1)
+
+//@ func (c *Cleaner) deleteExpiredSegments
+//@   property C30
+//@   safety -all
+//@   domain pathConf != nil
+//@   assert-call FindSegments: pathConf == caller_pathConf && pathName == caller_pathName && start == nil && end != nil && (*end).ns == now.ns - int64(caller_pathConf.RecordDeleteAfter)
+//@   assert-call os.Remove: called(FindSegments) == 1 && resultof(FindSegments, 1) == nil && called(os.Remove) <= len(resultof(FindSegments, 0)) && name == resultof(FindSegments, 0)[called(os.Remove)-1].Fpath
+//@   loop 1 invariant 0 <= _i && _i <= len(segments) && called(os.Remove) == _i && called(FindSegments) == 1
+//@   ensures [every-returned-segment-removed] result == nil ==> called(os.Remove) == len(resultof(FindSegments, 0))
